@@ -10,6 +10,7 @@ def tlsh_fields(t):
     return dict(checksum=list(t.checksum), L=int(t.Lvalue), q1=int(t.q1_ratio), q2=int(t.q2_ratio), code=list(t.tmp_code))
 
 def run(ctx):
+    ctx.claim_exhaustive = False      # keys / messages / parameters are sampled over an enumerated grid; only the spec-level models are exhaustive
     rnd = ctx.rnd; big = ctx.big()
     ctx.model_check('mc/MC_TlshDist.tla', what='MC_TlshDist (distance axioms over all single-field differences)')
     from crysp import tlsh as T, nilsimsa as N
